@@ -213,8 +213,8 @@ static void NAME(void) \
       CHECK(PFX##size(&a) == 0 && PFX##str(&a)[0] == 0, "after the second reserve the string is not the empty string"); \
       if (PFX##capacity(&a) < 30) { CHECK(fault_in_step(), "reserve failed without an allocation failure"); CHECK(PFX##capacity(&a) == c1, "failed reserve changed the capacity %zu -> %zu", c1, PFX##capacity(&a)); \
           if (c1 > 0) { SHIM_CALL(ab, PFX##append_str(&a, LIT("ab"))); CHECK(!ab || c1 < 2, "append within the capacity the string still reports aborted"); if (!ab) { CHECK(PFX##size(&a) == 2, "append within capacity lost"); SHIM_CALL(ab, PFX##resize(&a, 0)); } } } } \
-    for (k = 0; k < 8 && !failed && !aborted_run; k++) { \
-        CH before[64]; size_t bsz = PFX##size(&a); memcpy(before, ref, sizeof before); \
+    for (k = 0; k < 10 && !failed && !aborted_run; k++) { \
+        CH before[64]; size_t bsz = PFX##size(&a), cb0 = 0; memcpy(before, ref, sizeof before); \
         step_begin(#NAME); \
         switch (k) { \
         case 0: SHIM_CALL(ab, PFX##set_str(&a, LIT("hello"))); if (!ab) memcpy(ref, LIT("hello"), 6 * sizeof(CH)); break; \
@@ -224,15 +224,23 @@ static void NAME(void) \
         case 4: SHIM_CALL(ab, PFX##erase(&a, 2, 4)); if (!ab) memmove(ref + 2, ref + 6, (XLEN(ref + 6) + 1) * sizeof(CH)); break; \
         case 5: SHIM_CALL(ab, PFX##substr(&a, 1, 7, &b)); if (!ab) { memcpy(ref2, ref + 1, 7 * sizeof(CH)); ref2[7] = 0; } break; \
         case 6: SHIM_CALL(ab, PFX##append(&a, &b)); if (!ab) memcpy(ref + XLEN(ref), ref2, (XLEN(ref2) + 1) * sizeof(CH)); break; \
+        case 7: /* into a destination that already holds something and has room for the result: no growth, so no reason to abort */ \
+            cb0 = PFX##capacity(&b); SHIM_CALL(ab, PFX##substr(&a, 0, 3, &b)); if (!ab) { memcpy(ref2, ref, 3 * sizeof(CH)); ref2[3] = 0; } \
+            if (ab == 1 && cb0 >= 3) CHECK(0, "substr of 3 characters into a destination with capacity %zu aborted: only a growth may abort", cb0); \
+            break; \
+        case 8: /* into a destination that holds something and must grow */ \
+            SHIM_CALL(ab, PFX##substr(&a, 0, XLEN(ref), &b)); if (!ab) memcpy(ref2, ref, (XLEN(ref) + 1) * sizeof(CH)); break; \
         default: SHIM_CALL(ab, PFX##resize(&a, 40)); if (!ab) { size_t l = XLEN(ref); while (l < 40) ref[l++] = 0; ref[40] = 0; } break; \
         } \
         if (ab == 1) { \
             CHECK(fault_in_step(), "step %d aborted without an allocation failure", k); \
+            CHECK(PFX##size(&b) == XLEN(ref2) && XCMP(PFX##str(&b), ref2) == 0, "at the abort the second string is not what it was before"); \
             CHECK(PFX##size(&a) == bsz && (bsz == 0 || memcmp(PFX##str(&a), before, (bsz + 1) * sizeof(CH)) == 0), "at the abort the string is not what it was before"); \
             tr("step%d->abort ", k); aborted_run = 1; break; \
         } \
         CHECK(ab == 0, "assertion failure: %s", shim_assert_msg); \
-        if (k != 7) CHECK(PFX##size(&a) == XLEN(ref) && XCMP(PFX##str(&a), ref) == 0, "string differs from the reference after step %d", k); \
+        (void)cb0; \
+        if (k != 9) CHECK(PFX##size(&a) == XLEN(ref) && XCMP(PFX##str(&a), ref) == 0, "string differs from the reference after step %d", k); \
         else CHECK(PFX##size(&a) == 40 && memcmp(PFX##str(&a), ref, 41 * sizeof(CH)) == 0, "string differs from the reference after resize"); \
         CHECK(PFX##size(&b) == XLEN(ref2) && XCMP(PFX##str(&b), ref2) == 0, "second string differs from the reference after step %d", k); \
     } \
@@ -275,6 +283,14 @@ static void script_hash(void)
      * how many allocations a resize makes, and what the private capacity is afterwards, is the library's business */
     { float l0 = cstl_hash_load(&h); usable = l0 == l0; }
     if (!usable) { CHECK(fault_in_step(), "first resize failed without an allocation failure"); tr("resize(4)->noop "); step_begin("hash resize(4) retry"); SHIM_CALL(ab, cstl_hash_resize(&h, 4, hmod)); { float l0 = cstl_hash_load(&h); usable = l0 == l0; } if (!usable) CHECK(fault_in_step(), "retry failed without an allocation failure"); }
+    if (usable) {
+        /* a table that has its buckets but holds nothing is asked for more buckets: a failure is a quiet no-op here too, and the table takes elements afterwards */
+        step_begin("hash resize(6) on the sized but still empty table");
+        SHIM_CALL(ab, cstl_hash_resize(&h, 6, hmod)); CHECK(!ab, "resize of the empty table aborted");
+        CHECK(cstl_hash_size(&h) == 0 && cstl_hash_load(&h) == 0.0f, "resize of the empty table changed its size or load");
+        if (fault_in_step()) tr("resize(6,empty)->fault ");
+        hash_all_found(&h, E, in, 12, "after the resize of the empty table");
+    }
     for (k = 0; k < 6 && !failed && usable; k++) {
         float ld, ld0;
         for (i = 2 * k; i < 2 * k + 2; i++) { step_begin("hash insert"); SHIM_CALL(ab, cstl_hash_insert(&h, (size_t)E[i].id * 7, &E[i])); CHECK(!ab, "insert aborted"); in[i] = 1; }
